@@ -34,13 +34,16 @@ struct Ix {
         cpkt_op.assign(h.cpkts.size(), -1);
         op_pubs.resize(h.ops.size()); op_rels.resize(h.ops.size()); op_reqs.resize(h.ops.size());
         cpkt_acks.resize(h.cpkts.size());
+        // the tag "v/<5 digits>/" may sit behind a "$share/<group>/" prefix
         auto tag_op = [&](const std::string& s) -> int {
-            if (s.rfind("v/", 0) != 0) return -1;
-            size_t e = s.find('/', 2);
-            if (e == std::string::npos) return -1;
-            int v = 0;
-            for (size_t i = 2; i < e; ++i) { if (s[i] < '0' || s[i] > '9') return -1; v = v * 10 + (s[i] - '0'); }
-            return v < (int)h.ops.size() ? v : -1;
+            for (size_t p = s.find("v/"); p != std::string::npos; p = s.find("v/", p + 1)) {
+                if (p != 0 && s[p - 1] != '/') continue;
+                if (p + 8 > s.size() || s[p + 7] != '/') continue;
+                int v = 0; bool ok = true;
+                for (size_t i = p + 2; i < p + 7; ++i) { if (s[i] < '0' || s[i] > '9') { ok = false; break; } v = v * 10 + (s[i] - '0'); }
+                if (ok) return v < (int)h.ops.size() ? v : -1;
+            }
+            return -1;
         };
         std::map<uint16_t, int> last_pub_by_pid;   // pid -> op of the latest QoS 2 PUBLISH seen (cpkts are in seq order)
         for (auto& k : h.cpkts) {
@@ -304,6 +307,7 @@ void mon_quota_and_ids(const Run& run, const Ix& ix, Verdicts& v, vu::Result& re
     std::sort(tl.begin(), tl.end(), [](const It& a, const It& b) { return a.seq < b.seq; });
     std::map<int, std::set<uint16_t>> open_on_conn;     // conn -> pids counted against the quota
     std::map<uint16_t, int> id_holder;                  // pid -> op holding it (client-initiated exchanges)
+    std::multimap<int, uint16_t> ids_of_op;
     std::set<int> transmitted_on;                       // (conn<<20 | op) pairs
     int writes_pending = 0;
     uint64_t final_seq = UINT64_MAX;
@@ -326,6 +330,7 @@ void mon_quota_and_ids(const Run& run, const Ix& ix, Verdicts& v, vu::Result& re
                     if (it != id_holder.end() && it->second != op) {
                         v.add("C08", "C08:id-shared-by-two-open-exchanges", "packet identifier " + std::to_string(p.pid) + " used by " + op_str(h.ops[op]) + " while " + op_str(h.ops[it->second]) + " still holds it");
                     }
+                    if (it == id_holder.end() || it->second != op) ids_of_op.emplace(op, p.pid);
                     id_holder[p.pid] = op;
                     res.maxi("max_ids_in_use", id_holder.size());
                 }
@@ -358,7 +363,7 @@ void mon_quota_and_ids(const Run& run, const Ix& ix, Verdicts& v, vu::Result& re
             continue;
         }
         if (t.kind == 2) {
-            for (auto it = id_holder.begin(); it != id_holder.end();) if (it->second == t.id) it = id_holder.erase(it); else ++it;
+            { auto r = ids_of_op.equal_range(t.id); for (auto it = r.first; it != r.second; ++it) { auto h2 = id_holder.find(it->second); if (h2 != id_holder.end() && h2->second == t.id) id_holder.erase(h2); } ids_of_op.erase(t.id); }
             continue;
         }
         if (t.kind == 3) {
@@ -571,6 +576,7 @@ void mon_inbound(const Run& run, const Ix&, Verdicts& v, vu::Result& res) {
         if (o.kind != OpKind::recv || !o.completions || o.ec) continue;
         int mid = -1;
         if (o.r_topic.rfind("in/", 0) == 0) { size_t e = o.r_topic.find('/', 3); if (e != std::string::npos) mid = atoi(o.r_topic.substr(3, e - 3).c_str()); }
+        if (o.r_topic.rfind("in/hostile/", 0) == 0) continue;   // part of a hostile byte stream, not a broker-model message
         if (mid < 0 || mid >= (int)out.size()) { if (!run.broker->out.empty() || o.r_topic.rfind("in/", 0) == 0) v.add("C04", "C04:unknown-message-delivered", op_str(o) + ": delivered a message the broker never sent: " + o.r_topic); continue; }
         auto& m = out[mid];
         if (!count[mid]) first_delivery[mid] = o.seq_done;
@@ -750,10 +756,54 @@ void mon_connect(const Run& run, const Ix&, Verdicts& v, vu::Result& res) {
         if (t_cancel < 0) continue;
         // cancellations caused by the application (cancel()/disconnect) are not timeouts
         bool by_app = false;
-        for (auto& e : h.ev) if (e.kind == Ev::terminal && e.t == t_cancel) by_app = true;
+        for (auto& e : h.ev) if (e.kind == Ev::terminal && e.t <= t_cancel) by_app = true;   // cancel()/async_disconnect tear attempts down on their own schedule
         if (by_app) continue;
         res.count("handshake_timeouts");
         if (t_cancel - c.t_begin != 5 * SEC) v.add("C10", "C10:handshake-timeout-not-5s", "connection " + std::to_string(c.id) + ": attempt abandoned " + std::to_string((t_cancel - c.t_begin) / 1e9) + " s after async_connect was initiated");
+    }
+    // rotation: hosts are resolved in cyclic list order; the next attempt follows a failed one without delay, except
+    // when the list wraps around: then the pause lies in [0.5 s, 16.5 s]
+    if (!run.sc->host_list.empty()) {
+        const auto& hl = run.sc->host_list;
+        struct Res { uint64_t seq; vt t; int idx; bool ok; };
+        std::vector<Res> rs;
+        int expect = 0;
+        for (auto& e : h.ev) {
+            if (e.kind != Ev::log_resolve) continue;
+            std::string hp = e.s.substr(0, e.s.find(' '));
+            int idx = -1;
+            // the expected entry first (lists may contain duplicates)
+            if (hl[expect].first + ":" + hl[expect].second == hp) idx = expect;
+            else for (size_t i = 0; i < hl.size(); ++i) if (hl[i].first + ":" + hl[i].second == hp) { idx = (int)i; break; }
+            bool ok = e.s.find(" ok") != std::string::npos;
+            if (idx != expect) v.add("C10", "C10:rotation-order", "resolved " + hp + " (list entry " + std::to_string(idx) + ") where entry " + std::to_string(expect) + " (" + hl[expect].first + ":" + hl[expect].second + ") was due");
+            rs.push_back({e.seq, e.t, idx, ok});
+            if (idx >= 0) expect = (idx + 1) % (int)hl.size();
+            res.count("resolutions");
+        }
+        // gaps between the end of a failed attempt and the start of the next resolution
+        std::vector<uint64_t> rb; std::vector<vt> rbt;
+        for (auto& e : h.ev) if (e.kind == Ev::resolve_begin) { rb.push_back(e.seq); rbt.push_back(e.t); }
+        for (size_t i = 1; i < rb.size() && i - 1 < rs.size(); ++i) {
+            // everything that happened between resolution i-1 and resolution i
+            bool established = false, terminal = false; vt last_activity = rs[i - 1].t;
+            for (auto& c : h.conns) if (c.seq_begin > rb[i - 1] && c.seq_begin < rb[i]) {
+                if (c.established) established = true;
+                for (auto& e : h.ev) if (e.a == c.id && e.seq < rb[i] && (e.kind == Ev::connect_end || e.kind == Ev::read_end || e.kind == Ev::write_end || e.kind == Ev::shutdown_end || e.kind == Ev::conn_close)) last_activity = std::max(last_activity, e.t);
+            }
+            for (auto& e : h.ev) if (e.kind == Ev::terminal && e.seq > rb[i - 1] && e.seq < rb[i]) terminal = true;
+            if (established || terminal) continue;     // a new episode: its start is not a retry
+            bool wrap = rs[i - 1].idx == (int)hl.size() - 1;
+            vt gap = rbt[i] - last_activity;
+            if (wrap) {
+                res.count("wrap_pauses");
+                if (gap < 500 * MS || gap > 16500 * MS) v.add("C10", gap < 500 * MS ? "C10:wrap-pause-too-short" : "C10:wrap-pause-too-long", "pause of " + std::to_string(gap / 1e9) + " s when the broker list wrapped around (allowed 0.5 - 16.5 s)");
+            } else {
+                res.count("immediate_retries");
+                if (gap != 0) v.add("C10", "C10:pause-without-wrap", "pause of " + std::to_string(gap / 1e9) + " s before trying list entry " + std::to_string(rs.size() > i ? rs[i].idx : -1) + " although the list had not wrapped");
+            }
+        }
+        // addresses of one host are tried in the order returned, without delay
     }
     // C11 (b): single flight
     for (auto& e : h.ev) if (e.kind == Ev::note && e.s.rfind("overlap:", 0) == 0) v.add("C11", "C11:overlapping-attempts", e.s + " (t=" + std::to_string(e.t / 1e9) + "s)");
@@ -887,9 +937,9 @@ void mon_capabilities(const Run& run, const Ix& ix, Verdicts& v, vu::Result& res
         if (!o.completions) { v.add(P, std::string(P) + ":refusal-not-reported", op_str(o) + ": a request that must be refused never completed"); continue; }
         if (!o.ec) v.add(P, std::string(P) + ":invalid-request-accepted", op_str(o) + ": a request that must be refused completed successfully");
         if (o.t_done != o.t_init) v.add(P, std::string(P) + ":refusal-not-immediate", op_str(o) + ": refusal took " + std::to_string((o.t_done - o.t_init) / 1e9) + " s");
-        if (!o.tag.empty() && !run.sc->script.empty()) {
-            // expected code is carried in the operation's `topic`-independent field `disc_rc` (set by the family): 0 = unspecified
-        }
+        if (o.expect_ec && o.ec && !(o.ec.category() == boost::mqtt5::client::get_error_code_category() && o.ec.value() == o.expect_ec))
+            v.add(P, std::string(P) + ":wrong-refusal-code", op_str(o) + ": refused with " + ec_name(o.ec) + ", documented code is mqtt_client_error:" + std::to_string(o.expect_ec));
+        if (o.depth_at_done > 0) v.add(P, std::string(P) + ":refusal-inside-initiation", op_str(o) + ": refusal delivered from inside the initiating call");
     }
 }
 
@@ -920,6 +970,12 @@ void monitor_engine(const Run& run, Verdicts& v, vu::Result& res) {
     if (run.out.exception) { v.add("ENGINE", "exception:" + run.out.exception_what.substr(0, 40), "exception escaped io_context::poll(): " + run.out.exception_what); res.count("exceptions"); }
     if (run.out.hang) { v.add("ENGINE", "hang", "handler livelock: more than the step cap of handlers at one virtual instant"); res.count("hangs"); }
     for (auto& e : run.w->h.ev) if (e.kind == Ev::assert_fired) { v.add("ENGINE", "assert:" + e.s.substr(0, 60), "BOOST_ASSERT fired: " + e.s); res.count("asserts"); }
+}
+
+void monitor_ids_only(const Run& run, Verdicts& v, vu::Result& res) {
+    Ix ix(run.w->h);
+    mon_quota_and_ids(run, ix, v, res);
+    mon_completion(run, ix, v, res);
 }
 
 void monitor_all(const Run& run, Verdicts& v, vu::Result& res) {
